@@ -539,7 +539,7 @@ def seq_check(prop, tier, seed, cfg):
     # 3. coverage-guided search on the same oracle (E2), where configured
     fuzz_info = None
     if tcfg.get("fuzz_s") and not violations:
-        fuzz_info = fuzz_campaign(prop, mode, tcfg, seed, work, repdir, violations, notes, agg)
+        fuzz_info = fuzz_campaign(prop, mode, tcfg, seed, work, repdir, violations, notes, agg, cfg)
 
     wall = time.time() - t0
     write_evidence(prop, tier, seed, cfg, agg, samples, foreign_samples, violations, known_lines, notes, corpus_runs, wall, fuzz_info)
@@ -561,7 +561,7 @@ def seq_check(prop, tier, seed, cfg):
     return 0
 
 
-def fuzz_campaign(prop, mode, tcfg, seed, work, repdir, violations, notes, agg):
+def fuzz_campaign(prop, mode, tcfg, seed, work, repdir, violations, notes, agg, cfg):
     binp = build("fuzz")
     jobs = tcfg.get("fuzz_jobs", NCPU)
     secs = tcfg["fuzz_s"]
@@ -588,7 +588,8 @@ def fuzz_campaign(prop, mode, tcfg, seed, work, repdir, violations, notes, agg):
         os.makedirs(adir, exist_ok=True)
         e = dict(env)
         e["VERIF_FUZZ_STATS"] = os.path.join(work, "fz-stats-%d.txt" % j)
-        e["VERIF_FUZZ_KIND"] = str(j % 10) if tcfg.get("fuzz_per_kind", True) else "-1"
+        fk = cfg.get("fuzz_kinds") or list(range(10))
+        e["VERIF_FUZZ_KIND"] = str(fk[j % len(fk)])
         cmd = [binp, cdir] + ([seeds] if (j % 2 == 1 and os.listdir(seeds)) else []) + [
             "-max_total_time=%d" % secs, "-seed=%d" % (seed * 131 + j + 1), "-max_len=512", "-len_control=20",
             "-artifact_prefix=" + adir, "-print_final_stats=1", "-timeout=20", "-rss_limit_mb=3000", "-verbosity=0"]
@@ -613,7 +614,8 @@ def fuzz_campaign(prop, mode, tcfg, seed, work, repdir, violations, notes, agg):
                     agg[d][k] = agg[d].get(k, 0) + v
         arts = [f for f in os.listdir(adir) if f.startswith("crash-") or f.startswith("leak-")]
         for a in arts[:2]:
-            kind = str(j % 10) if tcfg.get("fuzz_per_kind", True) else "-1"
+            fk = cfg.get("fuzz_kinds") or list(range(10))
+            kind = str(fk[j % len(fk)])
             dec = subprocess.run([seqbin, "decode", os.path.join(adir, a), kind], capture_output=True, text=True)
             src = os.path.join(adir, a + ".case")
             with open(src, "w") as fh:
